@@ -91,15 +91,15 @@ def parts(tier):
         ]
     from vflib import progsym
     return [
-        CH("k1k2", "vflib.props.c03:scen_load", {"pool": "KEY_POOL_FULL", "styled": "k1k2", "templates": progsym.TEMPLATES_FULL}, shards=16, timeout=250, path_timeout=30),
+        CH("k1k2", "vflib.props.c03:scen_load", {"pool": "KEY_POOL_FULL", "styled": "k1k2", "templates": progsym.TEMPLATES_FULL}, shards=16, timeout=150, path_timeout=30),
         CH("k3", "vflib.props.c03:scen_load", {"pool": "KEY_POOL_FULL", "styled": "k3", "options": True, "templates": progsym.TEMPLATES_FULL},
-           shards=16, timeout=250, path_timeout=30),
+           shards=16, timeout=150, path_timeout=30),
         CH("k1k2k3", "vflib.props.c03:scen_load", {"pool": "KEY_POOL_QUICK", "styled": "all", "templates": ["nested_object", "list_of_objects"],
-                                                   "frameworks": ["pydantic", "dataclasses"]}, shards=16, timeout=250, path_timeout=30),
-        CH("roots", "vflib.props.c03:scen_roots", {}, shards=10, timeout=250, path_timeout=30),
+                                                   "frameworks": ["pydantic", "dataclasses"]}, shards=16, timeout=150, path_timeout=30),
+        CH("roots", "vflib.props.c03:scen_roots", {}, shards=10, timeout=150, path_timeout=30),
         CH("reserved_name_variants", "vflib.props.c03:scen_load", {"pool": "KEY_POOL_RESERVED", "styled": "k1", "options": True,
                                                                   "templates": ["flat_scalars", "nested_object", "list_of_objects", "recursive"]},
-           shards=16, timeout=250, path_timeout=30),
+           shards=16, timeout=150, path_timeout=30),
     ]
 
 
